@@ -98,6 +98,10 @@ pub enum Op {
     RoyaltyOp { mode: u8, method: String },
     /// slots to hand back to the caller (everything else is cleaned up)
     Return { slots: Vec<u8> },
+    /// (C05) write a value listing the same `Own` twice into an own collection entry (store = None)
+    /// or an entry of the key-value store in slot `store`; shape: 0 tuple (A, A), 1 array [A, A],
+    /// 2 (A, bytes, A), 3 plain write of A first, then re-write of the open entry with (A, A)
+    StoreDup { slot: u8, store: Option<u8>, key: Vec<u8>, shape: u8 },
 }
 
 impl Op {
@@ -134,6 +138,7 @@ impl Op {
             Op::Recurse { .. } => "recurse",
             Op::RoyaltyOp { .. } => "royalty",
             Op::Return { .. } => "return",
+            Op::StoreDup { .. } => "store_duplicated_own",
         }
     }
 }
@@ -690,6 +695,46 @@ impl Interp {
                     api.key_value_entry_set(h, scrypto_encode(&Own(n)).unwrap())?;
                     api.key_value_entry_close(h)?;
                     Ok("stored".to_string())
+                })();
+                if out.result.is_ok() {
+                    self.gone_node(&n);
+                }
+            }
+            Op::StoreDup { slot, store, key, shape } => {
+                let st = match store {
+                    Some(s) => match self.slots.get(s).map(|x| x.node) {
+                        Some(n) => Some(n),
+                        None => {
+                            out.result = Err(no_node());
+                            return out;
+                        }
+                    },
+                    None => None,
+                };
+                let Some(n) = self.live_owned(*slot) else {
+                    out.result = Err(no_node());
+                    return out;
+                };
+                out.target = Some(n);
+                out.aux = st;
+                out.abort_on_err = true;
+                let k = enc_key(key);
+                let dup = match shape {
+                    0 | 3 => scrypto_encode(&(Own(n), Own(n))).unwrap(),
+                    1 => scrypto_encode(&vec![Own(n), Own(n)]).unwrap(),
+                    _ => scrypto_encode(&(Own(n), vec![7u8; 5], Own(n))).unwrap(),
+                };
+                out.result = (|| {
+                    let h = match st {
+                        Some(st) => api.key_value_store_open_entry(&st, &k, LockFlags::MUTABLE)?,
+                        None => api.actor_open_key_value_entry(ACTOR_STATE_SELF, 0, &k, LockFlags::MUTABLE)?,
+                    };
+                    if *shape == 3 {
+                        api.key_value_entry_set(h, scrypto_encode(&Own(n)).unwrap())?;
+                    }
+                    api.key_value_entry_set(h, dup)?;
+                    api.key_value_entry_close(h)?;
+                    Ok("stored-duplicated-own".to_string())
                 })();
                 if out.result.is_ok() {
                     self.gone_node(&n);
